@@ -1657,6 +1657,27 @@ class Emitter:
             if f.is_decl:
                 continue
             s.emit_function(f, funcs)
+        # llvm.global_ctors -> one function the harness main calls first
+        ctor_calls = []
+        gc = mod.globals.get('@llvm.global_ctors')
+        if gc and gc['init'] and gc['init'][0] == 'agg':
+            ents = []
+            for e in gc['init'][1]:
+                if e[0] != 'agg':
+                    continue
+                prio, fn = e[1][0], e[1][1]
+                if fn[0] == 'global':
+                    ents.append((prio[1] if prio[0] == 'int' else 65535, s.gname(fn[1])))
+            for _, cn in sorted(ents, key=lambda x: x[0]):
+                ctor_calls.append('  %s();' % cn)
+        funcs.append('void ir2c_global_ctors(void) {\n%s\n}' % '\n'.join(ctor_calls))
+        # prototypes of plain-named (extern "C") defined functions, for harness mains
+        s.exported = []
+        for name, f in mod.funcs.items():
+            raw = name[1:]
+            if f.is_decl or not re.fullmatch(r'[A-Za-z][A-Za-z0-9_]*', raw) or raw.startswith('_Z'):
+                continue
+            s.exported.append(s.fnproto(f.ret, [p[0] for p in f.params], f.vararg, s.gname(name)) + ';')
         # anon structs (discovered during emission); order by containment
         anon_out = []
         emitted = set()
@@ -1718,6 +1739,9 @@ def main():
     em = Emitter(mod)
     c = em.run()
     open(sys.argv[2], 'w').write(c)
+    if len(sys.argv) > 3:
+        open(sys.argv[3], 'w').write('/* generated by ir2c: entry points in the exact generated C types */\n#include "ir2c_rt.h"\n'
+                                     + '\n'.join(em.exported) + '\nvoid ir2c_global_ctors(void);\n')
     print('ir2c: %d types, %d globals, %d funcs -> %d lines of C' % (
         len(mod.types), len(mod.globals), len(mod.funcs), c.count('\n')), file=sys.stderr)
 
